@@ -7,7 +7,7 @@ from ..ref_ws import SFrame, TEXT, CLOSE
 
 OUTCOMES = ['resolve-fail', 'refused', 'request-reset', 'rejected', 'drop-before-ready', 'drop-after-ready', 'graceful', 'protocol-error']
 READY = {'drop-after-ready', 'graceful', 'protocol-error'}
-SETTINGS = [(5, 30), (0, 0), (1, 1), (0, 100), (2, 3.5)]
+SETTINGS = [(5, 30), (0, 0), (1, 1), (0, 100), (2, 3.5), (0.0012, 0.0018), (2, 2.5)]
 DRAWS = [0.0, 0.5, 1.0 - 2.0 ** -53]
 CONNECT = [dict(poll=5, ping_rate=30, ping_timeout=None), dict(poll=2, ping_rate=0, ping_timeout=3)]
 
@@ -107,7 +107,7 @@ class C16(F.Check):
     expect_sites = ('ready-reset', 'growth', 'cap', 'exit', 'no-exit', 'long-chain', 'passthrough')
 
     def rule(self, tier):
-        return ('outcome sequences of length <= %d over 8 outcomes, constant draw per run (3 values)%s, 5 (min,max) settings, 2 connect parameter sets, '
+        return ('outcome sequences of length <= %d over 8 outcomes, constant draw per run (3 values)%s, 7 (min,max) settings, 2 connect parameter sets, '
                 'exit at every back-off index or never (2 further attempts are then observed). distinct = distinct (sequence, setting, draws, exit)'
                 % (4 if tier == 'thorough' else 3, ' and every per-back-off draw combination for length <= 3' if tier == 'thorough' else ''))
 
